@@ -4,7 +4,7 @@ from datetime import datetime, timedelta
 
 import numpy as np
 
-from tradingenv.contracts import ETF, ES, ZN, Cash, AbstractContract
+from tradingenv.contracts import ETF, ES, ZN, Cash, AbstractContract, Future, FutureChain
 from tradingenv.broker.broker import Broker, EndOfEpisodeError
 from tradingenv.broker.trade import Trade
 from tradingenv.broker.fees import BrokerFees
@@ -35,7 +35,7 @@ ASSUMPTIONS = ["'in-between' cases (needed side present, other side missing) may
 REQUIRED = ["C13:valuation-raises-when-missing", "C13:valuation-ok-when-flat", "C13:rebalance-raises-when-missing",
             "C13:rebalance-ok-when-quoted", "C13:atomic-on-failure", "C13:failpoint-atomic", "C13:episode-atomic",
             "C13:episode-fault-raises", "C13:episode-raises-only-when-needed"]
-REQUIRED_CATS = ["measure:weight", "measure:nr-contracts", "closed-with-float-residual", "episode-fault-latent", "episode-1", "episode-quotes-from-table", "request-previewed-before-faults", "account-cloned-after-faults", "request-with-threshold:nr-contracts"]
+REQUIRED_CATS = ["contract-announces-its-own-discontinuation:through-a-chain", "measure:weight", "measure:nr-contracts", "closed-with-float-residual", "episode-fault-latent", "episode-1", "episode-quotes-from-table", "request-previewed-before-faults", "account-cloned-after-faults", "request-with-threshold:nr-contracts"]
 REQUIRED_HITS = ["Broker.transact", "Broker.rebalance", "Rebalancing.make_trades"]
 TECHNIQUE = "runtime monitoring with fault injection: enumerated quote faults and sys.monitoring failpoints, atomicity asserted via the Broker.transact hook"
 LEVEL_TEXT = ("Fault enumeration. All single-contract fault kinds x position x target combinations are enumerated against the real "
@@ -387,6 +387,24 @@ def case(ctx, i, tier):
                   "positions": {c.symbol: pos.get(c, 0.0) for c in cs}, "targets": {c.symbol: v for c, v in tgt.items()}}
 
 
+class WK(Future):
+    """A user-defined future whose book closes when the USER says so (make_events overridden), e.g. on the last trading
+    date instead of the settlement date."""
+    freq = "QE-DEC"
+    multiplier = 50.0
+    margin_requirement = 0.1
+    closes = {}
+
+    def _get_expiry_date(self, year, month):
+        return datetime(year, month, 20)
+
+    def _get_last_trading_date(self, expiry):
+        return expiry - timedelta(days=5)
+
+    def make_events(self):
+        return [EventContractDiscontinued(time=self.closes.get(self.symbol, self.expiry), contract=self)]
+
+
 def episode_case(ctx):
     """Faults injected through the event stream of a real TradingEnv, with and without latency, over
     two episodes of the same environment.  A delivery model says from which step on the fault is in
@@ -398,6 +416,18 @@ def episode_case(ctx):
     from tradingenv.transmitter import Transmitter
     rng = ctx.rng
     cs = [ETF("A"), ETF("B"), ES(2021, 3)][: rng.randint(2, 3)]
+    own = rng.random() < 0.2
+    cs_space = list(cs)
+    if own:
+        # a user-defined future that announces ITS OWN discontinuation (make_events overridden: the book closes at a
+        # time of the user's choosing, before the expiry), traded directly or through a chain: the environment asks the
+        # contracts of the action space for their events, nobody adds the discontinuation by hand
+        wk1, wk2 = WK(2020, 9), WK(2020, 12)
+        AbstractContract.now = datetime.min
+        cs = cs[:2] + [wk1]
+        via_chain = rng.random() < 0.6
+        cs_space = cs[:2] + [FutureChain(contracts=[wk1, wk2]) if via_chain else wk1]
+        ctx.cat("contract-announces-its-own-discontinuation" + (":through-a-chain" if via_chain else ""))
     n = rng.randint(5, 10)
     t0 = datetime(2020, 6, 1, 12)
     grid = [t0 + timedelta(days=k) for k in range(n)]
@@ -407,6 +437,9 @@ def episode_case(ctx):
     f = rng.choice(["bidnan", "asknan", "bothnan", "disc", "missing-from-now-on"])
     L = rng.choice([0, 0, 10, 3600])
     off = rng.choice([0, L / 2.0])      # > 0: the fault is a latent event of timestep kf
+    if own:
+        cf, f = cs[-1], "disc"
+        WK.closes[cf.symbol] = grid[kf] + timedelta(seconds=off)
     px = {c: rng.choice([20.0, 100.0, 2500.0]) for c in cs}
     for k, t in enumerate(grid):
         for c in cs:
@@ -423,7 +456,7 @@ def episode_case(ctx):
                 elif f == "bothnan":
                     bid = ask = NAN
                 elif f == "disc":
-                    if k == kf:
+                    if k == kf and not own:
                         evs.append(EventContractDiscontinued(t, c))
                     continue
                 elif f == "missing-from-now-on":
@@ -443,7 +476,7 @@ def episode_case(ctx):
     else:
         tr.add_events(evs)
     kw = dict(latency=L) if L else {}
-    env = TradingEnv(action_space=BoxPortfolio(cs, -1, 1), transmitter=tr, initial_cash=1e6,
+    env = TradingEnv(action_space=BoxPortfolio(cs_space, -1, 1), transmitter=tr, initial_cash=1e6,
                      broker_fees=BrokerFees(proportional=1e-4), **kw)
     icf = cs.index(cf)
 
